@@ -414,6 +414,12 @@ pub fn drive_encrypt(t: &mut Tracer, tier: &str, seed: u64, plan: Option<String>
             decrypt_event(t, &sess(), "C05", &arr(&v["d"]), &arr(&v["ct"]), v["order"].as_str().unwrap(), v["compressed"] == 1, "spec-made");
             if v["compressed"] == 0 { der_decrypt_event(t, &sess(), "C05", &arr(&v["d"]), &arr(&v["ct"]), v["order"].as_str().unwrap(), "interop"); }
         }
+        // ... and the specification's ciphertexts for VALID points that it solved for (tiny x, x = 0, x^2 / x^2 + a / y^2 on a reduction boundary of
+        // the word arithmetic): ciphertexts an honest sender can produce, so they must decrypt (the invalid ones of the same plan belong to C06)
+        let fault = v["fault"].as_str().unwrap_or("");
+        if v["kind"] == "craft" && (fault.starts_with("valid") || fault.starts_with("comp-valid") || fault == "x=0-valid") {
+            decrypt_event(t, &sess(), "C05", &arr(&v["d"]), &arr(&v["ct"]), v["order"].as_str().unwrap(), v["compressed"] == 1, fault);
+        }
     }
     // ephemeral scalars whose C1 has leading zero bytes in x or y (the DER INTEGER is shorter than 32 bytes): encrypt under the script,
     // re-frame as DER, decrypt through the DER entry point
